@@ -8,6 +8,7 @@ from hypothesis import strategies as st
 
 from .. import wfcheck as WC
 from .. import wfgen as G
+from ..monitors import replay_children_started_item_pattern
 from ..values import teq, to_tagged, from_tagged
 from ._wf import install
 
@@ -231,11 +232,7 @@ def mon_c09(run, case):
         else:
             if not teq(first, br):
                 site = site_cfg
-                a, b_ = list(first.all), list(br.all)
-                op = run.backend.ops.get(run.backend.by_path.get(path, ""), {})
-                if op.get("ReplayChildren") and len(a) == len(b_) and all(
-                        (x.status == y.status and teq(x.result, y.result) and teq(x.error, y.error)) or (x.status.value == "STARTED" and y.status.value in ("SUCCEEDED", "FAILED"))
-                        for x, y in zip(a, b_)) and any(x.status.value == "STARTED" and y.status.value != "STARTED" for x, y in zip(a, b_)):
+                if replay_children_started_item_pattern(run, path, first, br):
                     # rebuilt from the children's records: an item that was still running at decision time and
                     # finished before the parent's completion record was written shows up as finished on replay
                     site = "replay-children:started-item-finished-before-parent-record"
